@@ -51,6 +51,9 @@ type Leaf interface {
 	// match returns true if the leaf matches the segment, values of bind parameters
 	// are stored in the `Params`.
 	match(segment string, params Params, header http.Header) bool
+	// setShortForm sets the implicit leaf that serves the same route without its
+	// optional segment.
+	setShortForm(l Leaf)
 }
 
 // baseLeaf contains common fields for any leaf.
@@ -60,6 +63,7 @@ type baseLeaf struct {
 	segment       *Segment       // The segment that the leaf is derived from.
 	handler       Handler        // The handler bound to the leaf.
 	headerMatcher *HeaderMatcher // The matcher for header values.
+	shortForm     Leaf           // The implicit leaf for the same route without its optional segment.
 }
 
 func (l *baseLeaf) getParent() Tree {
@@ -72,6 +76,13 @@ func (l *baseLeaf) getSegment() *Segment {
 
 func (l *baseLeaf) SetHeaderMatcher(m *HeaderMatcher) {
 	l.headerMatcher = m
+	if l.shortForm != nil {
+		l.shortForm.SetHeaderMatcher(m)
+	}
+}
+
+func (l *baseLeaf) setShortForm(shortForm Leaf) {
+	l.shortForm = shortForm
 }
 
 func (l *baseLeaf) matchHeader(header http.Header) bool {
